@@ -1,5 +1,5 @@
 import SA.Model.Routing
 namespace SA.Drv.Route
 /-- component keyword → handler over the remaining tokens of the line -/
-def entries : List (String × (List String → String)) := [("route", SA.Routing.handle)]
+def entries : List (String × (List String → String)) := [("route", SA.Routing.handle), ("expose", SA.Routing.handleExpose)]
 end SA.Drv.Route
